@@ -30,8 +30,28 @@ def cmd_check(a):
             print("(violations were recorded before the machinery failure: reporting them)")
             return ctx.finish()
         return 2
-    except Exception:
+    except Exception as ex:
         traceback.print_exc()
+        if ctx.violations:
+            print("(violations were recorded before the harness stopped: reporting them)")
+            return ctx.finish()
+        # an exception RAISED INSIDE THE LIBRARY on an input the specification gives a value for (every driver feeds
+        # only inputs of the property's quantifier, and on code that keeps the property no such call raises - the
+        # same deterministic inputs pass on the unchanged tree): that is the code disagreeing with the specification,
+        # not a failure of the machinery.  Import / syntax errors of the tree under test stay exit 2.
+        tb = traceback.extract_tb(ex.__traceback__)
+        pkg = os.path.join(os.path.realpath(common.REPO), "audiolazy") + os.sep
+        inner = tb[-1] if tb else None
+        in_lib = inner is not None and os.path.realpath(inner.filename).startswith(pkg)
+        if in_lib and not isinstance(ex, (ImportError, SyntaxError, MemoryError, RecursionError)) \
+                and any(not os.path.realpath(f.filename).startswith(pkg) and "drive_" in f.filename for f in tb):
+            caller = [f for f in tb if "drive_" in f.filename or "_lib" in f.filename][-1]
+            ctx.violation("%s:library-raised:%s" % (a.id, type(ex).__name__),
+                          {"exception": "%s: %s" % (type(ex).__name__, str(ex)[:300]),
+                           "raised_at": "%s:%d %s" % (os.path.relpath(inner.filename, common.REPO), inner.lineno, inner.name),
+                           "called_from": "%s:%d %s" % (os.path.basename(caller.filename), caller.lineno, caller.name),
+                           "line": inner.line})
+            return ctx.finish()
         print("MACHINERY-FAILURE property=%s (uncaught exception in harness)" % a.id)
         return 2
 
